@@ -22,6 +22,7 @@ func lemmaObligations(E *Engine, name string) ([]*Obl, error) {
 		return nil, fmt.Errorf("lemma %s not found", name)
 	}
 	g := NewGen(E, nil, "lemma:"+name, &FuncContract{Key: name, Opts: lm.Opts, Loops: map[int]*LoopContract{}})
+	g.nativeStr = lm.Opts["strings"] == "native"
 	g.entry = &State{reach: "true", store: map[string]string{}}
 	g.cur = g.entry.clone()
 	g.heapDecl("$alloc", "Int")
